@@ -1,6 +1,17 @@
+_U = ["--unwind", "4", "--unwinding-assertions"]
+def _j(fn, what, **kw):
+    d = dict(name="regs." + fn, props=["C11", "C12", "C01"], kind="PU",
+             bound="register-group propagation loop fully unwound (structural depth 3, unwinding assertion on)",
+             harness="h_regs.c", entry="h_" + fn, enforce=fn, contracts=["regs.h"], cbmc_flags=_U, loops=False,
+             replayer="regs", what=what)
+    d.update(kw)
+    return d
 JOBS = [
- dict(name="regs.SCPI_RegSet", props=["C11","C12","C01"], kind="PU", bound="register-group depth: do-while unwound 4 (structural constant 3), unwinding assertion on",
-      replayer="regs", harness="regs_regset.c", entry="h_SCPI_RegSet", enforce="SCPI_RegSet", contracts=["regs.h"],
-      cbmc_flags=["--unwind","4","--unwinding-assertions"], loops=False,
-      what="status coherence (C11), condition->event latch, frame over all registers, SRQ on MSS rise (C12); all registers, name and value symbolic"),
+ _j("SCPI_RegSet", "status coherence (C11), condition->event latch, frame over all registers, SRQ on MSS rise (C12); all registers, name and value symbolic"),
+ _j("SCPI_RegSetBits", "same clauses with val = old | bits, against SCPI_RegSet/SCPI_RegGet contracts", replace=["SCPI_RegSet", "SCPI_RegGet"], kind="P", bound="", cbmc_flags=[]),
+ _j("SCPI_RegClearBits", "same clauses with val = old & ~bits, against SCPI_RegSet/SCPI_RegGet contracts", replace=["SCPI_RegSet", "SCPI_RegGet"], kind="P", bound="", cbmc_flags=[]),
+ _j("SCPI_RegGet", "returns the register or 0", kind="P", bound="", props=["C11", "C01"]),
+ dict(name="regs.SCPI_RegSet_safety", props=["C01"], kind="PU", bound="propagation loop unwound, unwinding assertion on",
+      harness="h_regs.c", entry="h_SCPI_RegSet_safety", contracts=["regs.h"], cbmc_flags=_U, loops=False,
+      what="memory safety/termination of SCPI_RegSet for arbitrary registers, NULL context, NULL interface/callback"),
 ]
